@@ -203,3 +203,37 @@ Qed.
 Lemma nan_external_refuted :
   encode write_env (float_symbol quiet_nan_bits) (SRef "ExternalValue"%string) = None.
 Proof. vm_compute. reflexivity. Qed.
+
+(* ---------------------------------------------------------------- module table on reload *)
+Lemma bytes_eqb_refl : forall a, bytes_eqb a a = true.
+Proof. induction a; cbn [bytes_eqb]; [reflexivity | now rewrite N.eqb_refl]. Qed.
+
+Lemma mod_lookup_app_some : forall n a b i, mod_lookup n a = Some i -> mod_lookup n (a ++ b) = Some i.
+Proof.
+  induction a as [|[m j] a IH]; intros b i H; cbn [mod_lookup app] in *; [discriminate|].
+  destruct (bytes_eqb n m); [exact H | now apply IH].
+Qed.
+
+Lemma mod_lookup_app_none : forall n a b, mod_lookup n a = None -> mod_lookup n (a ++ b) = mod_lookup n b.
+Proof.
+  induction a as [|[m j] a IH]; intros b H; cbn [mod_lookup app] in *; [reflexivity|].
+  destruct (bytes_eqb n m); [discriminate | now apply IH].
+Qed.
+
+(* the module given last under a name is the one a saved import of that name resolves to, built-in or not *)
+Lemma user_module_overrides : forall builtins user n impl,
+  mod_lookup n (deserialize_params builtins (user ++ [(n, impl)])) = Some impl.
+Proof.
+  intros. unfold deserialize_params. rewrite rev_app_distr. cbn [rev app mod_lookup]. now rewrite bytes_eqb_refl.
+Qed.
+
+(* a module the user did not give resolves to the built-in one *)
+Lemma builtin_module_kept : forall builtins user n,
+  mod_lookup n (rev user) = None -> In n builtins ->
+  mod_lookup n (deserialize_params builtins user) = Some 0.
+Proof.
+  intros builtins user n H I. unfold deserialize_params. rewrite mod_lookup_app_none by exact H.
+  unfold default_params. induction builtins as [|b bs IH]; [contradiction|].
+  cbn [map mod_lookup]. destruct (bytes_eqb n b) eqn:E; [reflexivity|].
+  destruct I as [->|I]; [now rewrite bytes_eqb_refl in E | now apply IH].
+Qed.
